@@ -447,6 +447,13 @@ def replay_file(path, quiet=False):
     """Re-execute a replay file in this interpreter. Returns exit code."""
     with open(path) as f:
         sc = json.load(f)
+    want_o = int(sc.get('interpreter', {}).get('optimize', 0))
+    if want_o and not sys.flags.optimize:
+        # found by the leg that runs under `python -O` (asserts stripped)
+        sys.stdout.flush()
+        os.execv(sys.executable, [sys.executable, '-' + 'O' * want_o,
+                                  os.path.join(VERIF, 'run.py'), '--replay',
+                                  path] + (['--quiet'] if quiet else []))
     prop = sc.get('expect', {}).get('property', sc.get('property'))
     engine = engine_for(prop)
     if sc.get('history'):
@@ -565,7 +572,8 @@ def check(prop, tier, verif_seed, budget_s=None, jobs=None, max_runs=None,
     found = None
     harness = None
     nondet = None
-    next_index = 0
+    next_index = int(os.environ.get('VERIF_INDEX_BASE', 0))
+    max_runs += next_index
     deadline = t0 + budget_s
     ctx = multiprocessing.get_context('fork')
     with ProcessPoolExecutor(max_workers=jobs, mp_context=ctx) as ex:
@@ -623,8 +631,16 @@ def check(prop, tier, verif_seed, budget_s=None, jobs=None, max_runs=None,
             ex.shutdown(wait=True, cancel_futures=True)
     wall = time.time() - t0
     violations = 0
+    if (found is None and harness is None and not sys.flags.optimize
+            and not os.environ.get('VERIF_LEG')
+            and os.environ.get('VERIF_OPT_LEG', '1') != '0'):
+        leg_code = optimised_leg(prop, tier, budget_s, agg)
+        code = max(code, leg_code)
+        violations = int(leg_code == 1)
     if found is not None:
         violations = 1
+        if sys.flags.optimize:
+            found['interpreter'] = {'optimize': int(sys.flags.optimize)}
         name = f'{prop}-{found["run_seed"]}.json'
         path = write_replay(found, name)
         rc, outp = replay_fresh(path)
@@ -675,6 +691,38 @@ def check(prop, tier, verif_seed, budget_s=None, jobs=None, max_runs=None,
     if zero:
         print(f'WARNING probes never hit: {zero}')
     return code
+
+
+def optimised_leg(prop, tier, budget_s, agg):
+    """The interpreter's configuration is part of the environment: a share
+    of the budget goes to fresh runs under `python -O` (assert statements
+    and `if __debug__` blocks compiled away) in a separate interpreter.
+    Returns an exit code; violation lines of the leg are passed through."""
+    b = max(2.0, .12 * budget_s)
+    env = dict(os.environ, VERIF_LEG='O', VERIF_BUDGET_S=str(b),
+               VERIF_NO_EVIDENCE='1', VERIF_INDEX_BASE=str(1 << 40),
+               PYTHONHASHSEED='0')
+    try:
+        p = subprocess.run([sys.executable, '-O',
+                            os.path.join(VERIF, 'run.py'), prop, '--tier',
+                            tier], env=env, capture_output=True, text=True,
+                           timeout=b + 900)
+    except subprocess.TimeoutExpired:
+        print('HARNESS-ERROR: HARNESS-TIMEOUT in the -O leg', flush=True)
+        return 3
+    runs = 0
+    for ln in p.stdout.splitlines():
+        if ln.startswith(f'{prop} {tier}: runs='):
+            runs = int(ln.split('runs=')[1].split()[0])
+        elif not ln.startswith(('KNOWN-FINDING', 'WARNING probes')):
+            print(ln, flush=True)
+    agg['probes']['runs_under_python_-O'] += runs
+    agg['faults']['asserts_compiled_away_runs'] += runs
+    if p.returncode not in (0, 1):
+        print(f'HARNESS-ERROR: -O leg exit {p.returncode}: '
+              f'{p.stderr[-800:]}', flush=True)
+        return 2
+    return p.returncode
 
 
 def write_evidence_file(engine, prop, tier, seed, agg, wall, violations,
